@@ -1091,10 +1091,42 @@ def rule_compress(repo):
         except AnalysisError:
             continue
         if len(toks) == 2 and re.fullmatch(r'#\d+', toks[0]) and toks[1] == '1\x00C\x00':
-            t0 = int(toks[0][1:])
+            t0, t0_stmt = int(toks[0][1:]), s
     if t0 is None:
         r.bad(m, v.q, "header: #<t0> 1<clock symbol>", "the header does not start the clock with a rising edge at an initial time", v.mk.lineno)
         return _fin(r)
+    # within one time stamp the last value written for an identifier wins: no default-value line of the clock net may follow
+    # the header's rising edge (the per-cycle pattern assumes clk = 1 from #t0 on)
+    late = []
+    for s_ in v.mk.body[v.mk.body.index(t0_stmt) + 1:]:
+        if isinstance(s_, ast.For) and _prints_to(s_, v.fvar, nested=True):
+            excl = any(isinstance(n, ast.Name) and n.id == clkidx for g_ in
+                       [g for p_ in _prints_to(s_, v.fvar, nested=True) for g in _cond_guards(stmt_of(p_))] for n in ast.walk(g_.test))
+            if not excl:
+                late.append(s_)
+    _chk(r, not late, m, v.q, f"header: #{t0} 1<clk> is the last clock value written at time {t0}",
+         f"the loop `for {norm(late[0].target) if late else ''} in {norm(late[0].iter) if late else ''}` prints a value line for every net, the "
+         f"clock net included, AFTER the header's `#{t0} 1<clk>`: the default `0<clk>` overrides the rising edge inside time {t0}, the clock "
+         f"stays low for the whole first cycle (its first rising edge is lost)", late[0] if late else v.mk)
+    # everything written for a cycle reaches the file by the end of the dump call: the last write is followed by / is an
+    # unconditional flush (or the file is closed by a finaliser registered unconditionally in make_vcd_func)
+    last_write = last_flush = -1
+    for k_, s_ in enumerate(D.body):
+        if _prints_to(s_, v.fvar, nested=True) or any(_is_call(n, attr='write') and norm(n.func.value) == v.fvar for n in ast.walk(s_)):
+            last_write = k_
+        if isinstance(s_, ast.Expr) and isinstance(s_.value, ast.Call):
+            c_ = s_.value
+            if (c_ in _prints_to(s_, v.fvar) and any(k.arg == 'flush' and isinstance(k.value, ast.Constant) and k.value.value is True
+                                                    for k in c_.keywords)) or \
+                    (_is_call(c_, attr='flush', nargs=0) and norm(c_.func.value) == v.fvar):
+                last_flush = k_
+    fin = [s_ for s_ in v.mk.body if isinstance(s_, ast.Expr) and isinstance(s_.value, ast.Call) and
+           norm(s_.value.func) in ('atexit.register', 'weakref.finalize') and
+           any(norm(a) in (f'{v.fvar}.close', f'{v.fvar}.flush') for a in s_.value.args)]
+    _chk(r, last_flush >= last_write or bool(fin), m, dq, "every dump call ends with an unconditional flush of the dump file",
+         "the last write of a dump call is not followed by (and is not itself) an unconditional flush, and the file is never closed: the "
+         "time stamps and clock edges of trailing cycles (e.g. idle cycles at the end of a run) stay in the buffer, a reader sees the "
+         "waveform stop early", D.body[last_write] if last_write >= 0 else D)
     # what the time stamps are a function of: it must be a counter owned by this pass (a closure variable of make_vcd_func
     # written only by the dump function itself), stepped once per dump call
     leaves_n, leaves_a = _stamp_leaves(v, lp)
@@ -1165,7 +1197,7 @@ def rule_compress(repo):
 
 
 def _fin(r):
-    r.require_floor({'R-C16-compress': 11, 'R-C16-header': 24, 'R-C16-textwave': 11}.get(r.rule, 1) if not r.findings else 0)
+    r.require_floor({'R-C16-compress': 13, 'R-C16-header': 24, 'R-C16-textwave': 11}.get(r.rule, 1) if not r.findings else 0)
     return r
 
 
@@ -2391,6 +2423,16 @@ MUTANTS = [
     _m('net-members-widened-to-parent', VCD, "        if not isinstance(x, Const) and x.is_top_level_signal():\n          new_net.append( x )\n",
        "        if isinstance(x, Const):\n          continue\n        x = x.get_top_level_signal()\n        if x not in new_net:\n          new_net.append( x )\n",
        'R-C16-header'),
+    _m2('header-clock-edge-before-defaults', 'R-C16-compress',
+        (VCD, "    print( '\\n#0\\n1{}\\n'.format( clock_symbol ), file=vcd_file, flush=True )\n", "    print( file=vcd_file, flush=True )\n"),
+        (VCD, "    clock_symbol = net_symbol_mapping[ vcd_clock_net_idx ]\n\n    net_details", "    net_details"),
+        (VCD, "    last_values = [0 for _ in range(len(trimmed_value_nets))]\n",
+         "    clock_symbol = net_symbol_mapping[ vcd_clock_net_idx ]\n    print( '#0\\n1{}\\n'.format( clock_symbol ), file=vcd_file )\n"
+         "    last_values = [0 for _ in range(len(trimmed_value_nets))]\n")),
+    _m2('flush-only-when-dirty', 'R-C16-compress',
+        (VCD, "      for i, (signal, symbol) in enumerate( net_details ):\n", "      dirty = False\n      for i, (signal, symbol) in enumerate( net_details ):\n"),
+        (VCD, "          print( f'{net_bits_bin_str}{symbol}', file=vcd_file )\n", "          print( f'{net_bits_bin_str}{symbol}', file=vcd_file )\n          dirty = True\n"),
+        (VCD, "file=vcd_file, flush=True )\n      vcd_sim_ncycles += 1", "file=vcd_file, flush=dirty )\n      vcd_sim_ncycles += 1")),
     _m('var-name-keeps-dot', VCD, "repr(signal)[ len(m_name)+1: ]", "repr(signal)[ len(m_name): ]", 'R-C16-header'),
     _m('no-upscope', VCD, '      print( f"{spaces}$upscope $end", file=vcd_file )\n', "", 'R-C16-header'),
     _m('clock-index-off-by-one', VCD, "vcd_clock_net_idx = len(trimmed_value_nets)\n\n      if new_net:",
@@ -2496,6 +2538,7 @@ EQUIV = [
     _m('net-members-by-comprehension', VCD, "      new_net = []\n      for x in net:\n        if not isinstance(x, Const) and x.is_top_level_signal():\n          new_net.append( x )\n          if repr(x)",
        "      new_net = [ y for y in net if not isinstance(y, Const) and y.is_top_level_signal() ]\n      for x in new_net:\n        if True:\n          if repr(x)"),
     _m('stamp-helper-local', VCD, "next_neg_edge = 100 * vcd_sim_ncycles + 50", "cyc = vcd_sim_ncycles\n      next_neg_edge = 100 * cyc + 50"),
+    _m('flush-by-method-call', VCD, "file=vcd_file, flush=True )\n      vcd_sim_ncycles += 1", "file=vcd_file )\n      vcd_sim_ncycles += 1\n      vcd_file.flush()"),
     _m('dump-guard-flipped', PREP, "    if top.has_metadata( VcdGenerationPass.vcd_func ):\n      ret.append( top.get_metadata( VcdGenerationPass.vcd_func ) )\n",
        "    if not top.has_metadata( VcdGenerationPass.vcd_func ):\n      pass\n    else:\n      ret.append( top.get_metadata( VcdGenerationPass.vcd_func ) )\n"),
     _m('vcd-str-conditional-expression', BITS,
